@@ -24,6 +24,12 @@ CHECKS = {
  "C19": ("exploration", "runtime monitor of Step/Adjust calls on a scripted clock while the real PLL is fed seeded (offset, weight, time, epoch) histories",
          "Necessary conditions from the statement evaluated on every actuation of every generated history (both epoch-bumping and non-bumping clocks).",
          "offsets != MinInt64, non-decreasing clock readings; for gaps >= 2^23 s the duration is accepted within float rounding", "3/C19"),
+ "C01": ("exploration", "runtime monitor of Do/Sleep/measure events of the real sync.Run inside testing/synctest bubbles (virtual time) with scripted clock, adjustment and sources",
+         "Held on every generated configuration x source script: event grammar, timing on the virtual clock, magnitude bound, and the composition clause in rounds determined by their own measurements; inadmissible configurations refused before any measurement.",
+         "trusts testing/synctest; correction caps < 2^61 ns; composition clause only for |offset| < 2^62 and fully answered rounds (stale result slots are outside what the statement fixes)", "3/C01"),
+ "C12": ("exploration", "runtime monitor of Provider.Current/Get under testing/synctest virtual time from 1..16 goroutines with the race detector; per-call oracle at the exact virtual instant plus scheduled Get probes",
+         "Held on all generated call schedules over up to ~100 virtual days incl. idle gaps at every boundary (24 h, 72 h +-1 ns); race reports in net/ntske are violations.",
+         "trusts testing/synctest and the race detector; validity bounds inclusive as implemented", "3/C12"),
 }
 
 NOT_APPLICABLE = {
